@@ -48,9 +48,42 @@ func repoTarget(rel, name string, harness ...string) *Target {
 
 func (c *Ctx) Quick() bool { return c.Tier != "thorough" }
 
-// ReplayFileCmd re-runs a saved counterexample natively and prints the outcome.
+// ReplayFileCmd re-runs the job that produced a saved counterexample (it rebuilds the target from
+// /repo's current tree, so generated code is regenerated) and runs the saved values through the
+// natively compiled harness. Exit 1 if the failure reproduces, 0 if it does not.
 func ReplayFileCmd(path string) int {
-	fmt.Println("replay of", path, "is done through the owning check; see replay_cmd_template in MANIFEST.json")
+	b, err := os.ReadFile(path)
+	if err != nil {
+		fmt.Println(err)
+		return 2
+	}
+	var rf ReplayFile
+	if err := json.Unmarshal(b, &rf); err != nil || rf.Check == "" {
+		fmt.Println("not a replay file of this framework:", path)
+		return 2
+	}
+	f, ok := Checks[rf.Check]
+	if !ok {
+		fmt.Println("unknown check", rf.Check)
+		return 2
+	}
+	os.Setenv("GV_ONLY", rf.Job)
+	c := NewCtx(rf.Check, "quick", 0)
+	defer c.Cleanup()
+	c.ReplayOnly = &rf
+	c.ReplayPath = path
+	f(c)
+	if c.ReplayResult == nil {
+		fmt.Println("the job of this replay file is not part of the check any more:", rf.Job)
+		return 2
+	}
+	nr := c.ReplayResult
+	fmt.Printf("native replay of %s (%s / %s): failures=%v panic=%q assume_failed=%d\n", path, rf.Check, rf.Job, nr.Failures, nr.Panic, nr.AssumeFailed)
+	if len(nr.Failures) > 0 || nr.Panic != "" {
+		fmt.Printf("VIOLATION property=%s replay=%s\n", rf.Check, path)
+		return 1
+	}
+	fmt.Println("the saved input does not fail on the current tree")
 	return 0
 }
 
